@@ -1,6 +1,6 @@
 ---- MODULE MC_C04 ----
 (* case generator for C04: abstract documents over the alphabet below *)
 EXTENDS DocGen
-MCAlphabet == {"P","DIV","T","t","UL","LI","DT","LT","FIG","FIGL","TW","HID","HIN","SKS","SKF","CMT","INL"}
+MCAlphabet == {"P","DIV","T","t","UL","LI","DT","LT","FIG","FIGL","TW","HID","HIN","SKS","SKF","CMT","INL","AJ"}
 MCRoots    == {"P","DIV","UL","DT","LT","FIG","FIGL","TW","HID","SKS","SKF","CMT"}
 ====
